@@ -1,5 +1,5 @@
 /-
-C13 — model of `pyttb/gcp/fg_setup.py`: which data a loss accepts (`valid_nonneg`,
+C13 — model of `pyttb/gcp/fg_setup.py` (tree after 083ca8e / 18649ab): which data a loss accepts (`valid_nonneg`,
 `valid_binary`, `valid_natural`), which losses need the additional parameter, and the lower
 bound `setup` returns (`none` = `-inf`).  The loss / derivative pair itself is the subject of
 C12.  `setup` looks at the data only through its representation (`isinstance(data, sptensor)`)
@@ -25,10 +25,14 @@ structure DataView (α : Type) where
   vals : List α
   deriving Repr
 
-/-- `valid_nonneg`: `np.all(data.vals > 0)` / `np.all(data.data > 0)` — the same strict test
-on the stored values of a sparse and on ALL entries of a dense tensor. -/
-def validNonneg [Zero α] [LT α] [DecidableLT α] (d : DataView α) : Bool :=
-  if d.sparse then d.vals.all fun v => decide (0 < v) else d.vals.all fun v => decide (0 < v)
+/-- `valid_nonneg` (after 083ca8e): sparse `np.all(data.vals > 0)` (the STORED values are
+positive), dense `np.all(data.data >= 0)` (every entry is non-negative). -/
+def validNonneg [Zero α] [LT α] [DecidableLT α] [LE α] [DecidableLE α] (d : DataView α) : Bool :=
+  if d.sparse then d.vals.all fun v => decide (0 < v) else d.vals.all fun v => decide (0 ≤ v)
+
+/-- The test before 083ca8e, an explicit copy: `> 0` for both representations. -/
+def validNonnegPinned [Zero α] [LT α] [DecidableLT α] (d : DataView α) : Bool :=
+  d.vals.all fun v => decide (0 < v)
 
 /-- `valid_binary`: sparse `np.all(data.vals == 1)`; dense
 `np.all(np.isin(np.unique(data.data), [0, 1]))`. -/
@@ -36,8 +40,14 @@ def validBinary [Zero α] [One α] [DecidableEq α] (d : DataView α) : Bool :=
   if d.sparse then d.vals.all fun v => decide (v = 1)
   else d.vals.all fun v => decide (v = 0) || decide (v = 1)
 
-/-- `valid_natural`: `np.all(vals % 1 == 0)` for both representations (no sign test). -/
-def validNatural [IntCast α] [DecidableEq α] (floor : α → Int) (d : DataView α) : Bool :=
+/-- `valid_natural` (after 18649ab): `np.all(vals % 1 == 0) and np.all(vals >= 0)` for both
+representations. -/
+def validNatural [Zero α] [IntCast α] [DecidableEq α] [LE α] [DecidableLE α] (floor : α → Int)
+    (d : DataView α) : Bool :=
+  (d.vals.all fun v => decide (((floor v : Int) : α) = v)) && d.vals.all fun v => decide (0 ≤ v)
+
+/-- The test before 18649ab, an explicit copy: `np.all(vals % 1 == 0)` (no sign test). -/
+def validNaturalPinned [IntCast α] [DecidableEq α] (floor : α → Int) (d : DataView α) : Bool :=
   d.vals.all fun v => decide (((floor v : Int) : α) = v)
 
 /-- `data is not None and not valid(data)`. -/
@@ -47,7 +57,8 @@ def refused (valid : DataView α → Bool) : Option (DataView α) → Bool
 
 /-- `setup(objective, data, additional_parameter)`: the lower bound of an accepted request
 (`none` = `-inf`), branch by branch. -/
-def setupS [Zero α] [One α] [IntCast α] [LT α] [DecidableLT α] [DecidableEq α] (floor : α → Int)
+def setupS [Zero α] [One α] [IntCast α] [LT α] [DecidableLT α] [LE α] [DecidableLE α] [DecidableEq α]
+    (floor : α → Int)
     (obj : Objective) (data : Option (DataView α)) (param : Option α) : Except Reject (Option α) :=
   match obj with
   | .gaussian => .ok none
